@@ -650,6 +650,144 @@ def who_may_write_rule(ck, facts, crate="sophia_inmem", floor=20):
     ck.floor("R1.8", "mutable borrows of index sets", n, floor)
 
 
+LIST_MUT = re.compile(r"^std::vec::Vec::<T, A>::(push|swap_remove|remove|retain|retain_mut|insert|clear|truncate|pop|drain|dedup\w*|extend\w*|append)$")
+SET_MUT = re.compile(r"^std::collections::(HashSet::<T, S, A>|BTreeSet::<T, A>)::(insert|remove|replace|take)$")
+DELEG_MUT = re.compile(r"(MutableDataset|MutableGraph)>?::(insert|remove)$")
+
+
+def _flag_sources(fn, operand, bi, seen=None):
+    """reaching definitions (flow-insensitive) of a bool operand: ('const', bool, block) | ('call', term, block) |
+    ('cmp', rvalue, block) | ('other', rvalue, block)"""
+    seen = seen if seen is not None else set()
+    if operand[0] == "k":
+        return [("const", operand[1].get("v") == "1", bi)]
+    local = operand[1][0]
+    if len(operand[1]) > 1 or local in seen:
+        return [("other", operand, bi)]
+    seen.add(local)
+    out = []
+    for b, si, rv in fn.defs().get(local, []):
+        if fn.blocks[b].get("cleanup"):
+            continue
+        if rv[0] == "call":
+            out.append(("call", rv[1], b))
+        elif rv[0] == "use":
+            out.extend(_flag_sources(fn, rv[1], b, seen))
+        elif rv[0] == "bin" and rv[1] in ("Ne", "Lt", "Gt", "Eq", "Le", "Ge"):
+            out.append(("cmp", rv, b))
+        else:
+            out.append(("other", rv, b))
+    return out
+
+
+def list_flag_hits(fn, kind):
+    """R1.9 on one insert/remove implementation; yields (key suffix, message)."""
+    import mirutil
+    muts = [(bi, t) for bi, t in fn.calls() if LIST_MUT.match(t["f"].get("res_name") or t["f"].get("name") or "")
+            or SET_MUT.match(t["f"].get("res_name") or t["f"].get("name") or "")
+            or DELEG_MUT.search(t["f"].get("res_name") or t["f"].get("name") or "")]
+    name = lambda t: (t["f"].get("res_name") or t["f"].get("name") or "?")
+    if not muts:
+        yield "#no-mutation", "no call that changes the underlying collection was recognised"
+        return
+    oks = list(mirutil.blocks_with_agg(fn, "core::result::Result", "Ok"))
+    rets = []      # (source, block of the Ok aggregate)
+    for bi, si, dest, ops in oks:
+        if dest != [0] or len(ops) != 1:
+            continue
+        for src in _flag_sources(fn, ops[0], bi):
+            rets.append((src, bi))
+    deleg = [t for bi, t in muts if DELEG_MUT.search(name(t))]
+    if not rets:
+        # `T::remove(*self, ..)` returned as is
+        if deleg and all(t["dest"] == [0] for t in deleg):
+            return
+        yield "#flag-shape", "cannot find the returned Ok(flag)"
+        return
+    mut_targets = [t["to"] for bi, t in muts if t.get("to") is not None]
+    after_mut = set()
+    for tgt in mut_targets:
+        after_mut |= fn.reachable(tgt)
+    sets_true = set()
+    flag_is_call = False
+    for src, okb in rets:
+        if src[0] == "call":
+            t = src[1]
+            if SET_MUT.match(name(t)) or DELEG_MUT.search(name(t)):
+                flag_is_call = True
+            else:
+                yield "#flag-source:%s" % name(t).split("::")[-1], "the returned flag is the result of %s, not of the change made to the collection" % name(t)
+        elif src[0] == "const":
+            val, b = src[1], src[2]
+            if val:
+                sets_true.add(b)
+                if not any(fn.dominates(mb, b) and (mb != b) for mb, _ in muts):
+                    yield "#constant-true", ("`true` is reported on a path that does not go through a change of the collection (%s): the "
+                                             "flag does not say whether the %s changed anything" % (", ".join(sorted({name(t).split("::")[-1] for _, t in muts})), kind))
+            else:
+                if b in after_mut:
+                    yield "#false-after-change", "`false` can be reported after the collection was changed"
+        elif src[0] == "cmp":
+            rv = src[1]
+            lens = 0
+            for op in (rv[2], rv[3]):
+                o = fn.origin(op)
+                if o[0] == "call" and re.search(r"::len$", name(o[1])):
+                    lens += 1
+            if lens != 2:
+                yield "#flag-shape", "the returned flag is a comparison that is not `len before` vs `len after`"
+            else:
+                sets_true |= {src[2]}
+        else:
+            yield "#flag-shape", "the returned flag has no recognised source"
+    if not flag_is_call:
+        # every change must be reported: from a mutating call, `ret` is reachable only through a block that sets the flag
+        for mb, t in muts:
+            if t.get("to") is None:
+                continue
+            reach = fn.reachable(t["to"], avoid=sets_true)
+            if any(r in reach for r in fn.ret_blocks()):
+                yield "#change-not-reported:%s" % name(t).split("::")[-1], "after %s the function can return without setting the flag to true" % name(t)
+    if kind == "remove":
+        for mb, t in muts:
+            if re.search(r"Vec::<T, A>::(swap_remove|remove)$", name(t)) and t.get("to") is not None and mb not in fn.reachable(t["to"]):
+                yield "#first-occurrence-only", ("%s is not in a loop: a list can hold the item several times (insert always pushes), so the "
+                                                 "item is still contained after remove()" % name(t).split("::")[-1])
+
+
+def list_flag_rule(ck, facts):
+    """R1.9: insert/remove of the foreign (Vec / HashSet / BTreeSet / &mut T) graphs and datasets of sophia_api."""
+    n = 0
+    for fn in sorted(facts.fns.values(), key=lambda f: f.id):
+        if fn.crate != "sophia_api" or "_foreign_impl" not in fn.file or fn.kind == "closure":
+            continue
+        m = re.search(r"<impl (?:dataset::MutableDataset|graph::MutableGraph) for (.*)>::(insert|remove)$", fn.name)
+        if not m:
+            continue
+        n += 1
+        short = "%s::%s" % (m.group(1).replace("std::collections::", "").replace("std::vec::", "").replace("std::option::", ""), m.group(2))
+        hits = sorted(set(list_flag_hits(fn, m.group(2))))
+        for suf, msg in hits:
+            ck.bad("R1.9", "R1.9@%s%s" % (short, suf), "%s: %s" % (short, msg), fn.loc)
+        if not hits:
+            ck.ok("R1.9", "%s: the flag is the container's own, or true exactly after a change; removal covers every occurrence" % short)
+    ck.floor("R1.9", "insert/remove of foreign collections", n, 22)
+
+
+def list_flag_controls(ck):
+    import core
+    exp = {"pos_remove_constant_flag": r"#constant-true", "pos_remove_first_only": r"#first-occurrence-only",
+           "pos_remove_unreported": r"#false-after-change", "pos_insert_silent": r"#constant-true",
+           "neg_remove_all": None, "neg_remove_retain": None, "neg_insert_push": None}
+    for nm, pat in exp.items():
+        fn = core.fixture_fn("ListStore::" + nm)
+        hits = [s for s, _ in list_flag_hits(fn, "insert" if "insert" in nm else "remove")]
+        if pat:
+            ck.control("R1.9", "ListStore::" + nm, any(re.search(pat, h) for h in hits))
+        else:
+            ck.control("R1.9", "ListStore::" + nm, bool(hits), expect=False, note=";".join(hits))
+
+
 def run(ck, facts, tier):
     facts.require_crates(["sophia_inmem", "sophia_api", "sophia_sparql"])
     index_full_rule(ck, facts)
@@ -659,6 +797,8 @@ def run(ck, facts, tier):
     ck.control("R1.8", "TwoIndexes::pos_bulk_load (fills one index first)", pr.fired(r"pos_bulk_load#mutates-index-set$"))
     ck.control("R1.8", "TwoIndexes::neg_read_only", pr.fired(r"neg_read_only"), expect=False)
     who_may_write_rule(ck, facts)
+    list_flag_controls(ck)
+    list_flag_rule(ck, facts)
     total_scans = 0
     for store, kind, n in STORES:
         perms = mutation_rule(ck, facts, store, kind, n)
